@@ -52,6 +52,37 @@ fn term_for(sort: fol::Sort, cfg: &FolCfg) -> BoxedStrategy<fol::GeneralTerm> {
 
 /// directed: a block of binders P, P1, P2 (same sort) around atoms that mention the substituted
 /// variable, with a term that mentions the binders and the fresh-name candidates
+/// the substitutions of an induction step: an integer variable N replaced by a term over N itself
+/// (N + 1, N - 1, 2 * N, -N) in a formula whose atoms also mention such terms (`q(N, N + 1)`)
+fn successor_case(cfg: &FolCfg) -> BoxedStrategy<(fol::Formula, fol::Variable, fol::GeneralTerm)> {
+    fn it(k: u8, v: &str) -> fol::IntegerTerm {
+        let var = fol::IntegerTerm::Variable(v.to_string());
+        let bin = |op, l, r| fol::IntegerTerm::BinaryOperation { op, lhs: Box::new(l), rhs: Box::new(r) };
+        match k % 5 {
+            0 => var,
+            1 => bin(fol::BinaryOperator::Add, var, fol::IntegerTerm::Numeral(1)),
+            2 => bin(fol::BinaryOperator::Subtract, var, fol::IntegerTerm::Numeral(1)),
+            3 => bin(fol::BinaryOperator::Multiply, fol::IntegerTerm::Numeral(2), var),
+            _ => fol::IntegerTerm::UnaryOperation { op: fol::UnaryOperator::Negative, arg: Box::new(var) },
+        }
+    }
+    (1u8..5, proptest::collection::vec(any::<u8>(), 6), g::formula(cfg), any::<bool>())
+        .prop_map(|(tk, ks, other, wrap)| {
+            let gt = |k: u8| fol::GeneralTerm::IntegerTerm(it(k, "N"));
+            let atom = |p: &str, args: Vec<fol::GeneralTerm>| {
+                fol::Formula::AtomicFormula(fol::AtomicFormula::Atom(fol::Atom { predicate_symbol: p.to_string(), terms: args }))
+            };
+            let a = atom("q", vec![gt(ks[0]), gt(ks[1])]);
+            let b = atom("r", vec![gt(ks[2]), gt(ks[3]), gt(ks[4])]);
+            let mut f = g::bin(if ks[5] % 2 == 0 { fol::BinaryConnective::Implication } else { fol::BinaryConnective::Conjunction }, a, b);
+            if wrap {
+                f = g::bin(fol::BinaryConnective::Disjunction, f, other);
+            }
+            (f, fol::Variable { name: "N".into(), sort: fol::Sort::Integer }, gt(tk))
+        })
+        .boxed()
+}
+
 fn directed_case(cfg: &FolCfg) -> BoxedStrategy<(fol::Formula, fol::Variable, fol::GeneralTerm)> {
     let cfg = cfg.clone();
     (
@@ -136,13 +167,13 @@ impl Check for C17 {
                 (Just(f), Just(var), t)
             })
             .boxed();
-        let triple = prop_oneof![3 => random, 1 => directed_case(&c)];
+        let triple = prop_oneof![6 => random, 2 => directed_case(&c), 1 => successor_case(&c)];
         (triple, g::raw_interp(c.preds.len(), c.fcs.len(), 3, 5), vec(any::<u16>(), 8))
             .prop_map(|((f, var, term), raw, envc)| Case { f, var, term, raw, envc })
             .boxed()
     }
     fn rule(&self) -> String {
-        "random formula x variable x sort-compatible term (3:1 mixed with directed blocks of binders X,X1,X2 against terms over X..X4) x random interpretation and assignment; non-trivial = the variable occurs free below a quantifier that binds a variable of the term (a renaming is required); distinct by formula/variable/term text".into()
+        "random formula x variable x sort-compatible term (mixed with directed blocks of binders X,X1,X2 against terms over X..X4, and with induction-step substitutions N := N+1 / N-1 / 2*N / -N into atoms over such terms) x random interpretation and assignment; non-trivial = the variable occurs free below a quantifier that binds a variable of the term (a renaming is required); distinct by formula/variable/term text".into()
     }
     fn run(&self, case: &Case) -> Outcome {
         let c = cfg();
